@@ -12,6 +12,7 @@ import (
 	"fmt"
 	"math"
 	"math/big"
+	"strconv"
 
 	"github.com/golang/geo/r3"
 	"github.com/golang/geo/s2"
@@ -67,9 +68,11 @@ func bvOf(v r3.Vector) bv { return bv{bf(v.X), bf(v.Y), bf(v.Z)} }
 func bcross(a, b bv) bv {
 	return bv{bsub(bmul(a[1], b[2]), bmul(a[2], b[1])), bsub(bmul(a[2], b[0]), bmul(a[0], b[2])), bsub(bmul(a[0], b[1]), bmul(a[1], b[0]))}
 }
-func bdot(a, b bv) *big.Float { return badd(bmul(a[0], b[0]), badd(bmul(a[1], b[1]), bmul(a[2], b[2]))) }
-func bvadd(a, b bv) bv       { return bv{badd(a[0], b[0]), badd(a[1], b[1]), badd(a[2], b[2])} }
-func (a bv) isZero() bool    { return a[0].Sign() == 0 && a[1].Sign() == 0 && a[2].Sign() == 0 }
+func bdot(a, b bv) *big.Float {
+	return badd(bmul(a[0], b[0]), badd(bmul(a[1], b[1]), bmul(a[2], b[2])))
+}
+func bvadd(a, b bv) bv    { return bv{badd(a[0], b[0]), badd(a[1], b[1]), badd(a[2], b[2])} }
+func (a bv) isZero() bool { return a[0].Sign() == 0 && a[1].Sign() == 0 && a[2].Sign() == 0 }
 
 // round to hp bits and rescale so that the largest component has exponent 0 (keeps later
 // products far away from any exponent limit and cheap)
@@ -517,6 +520,24 @@ func run(c *vkit.Collector, rng *vkit.Rng, budget int) {
 		corr(c, q, c.Evals%fullEvery == 0)
 		return true
 	}
+	// regression corpus: the inputs of the findings made with this property (all repaired in
+	// /repo except the antipode one), always run first
+	hx := func(s string) float64 { f, _ := strconv.ParseFloat(s, 64); return f }
+	for _, d := range []float64{1e-150, 1e-155, 1e-158, 1e-160, 1e-162, 1e-170, 1e-300} {
+		emit("corpus:plane-angle-underflow", quad{P(1, 0, 0), P(0, 1, 0), P(1, 0, -d), P(0, 1, d)})
+	}
+	for _, L := range []float64{1e-60, 1e-78, 1e-100, 1e-170, 1e-300} {
+		emit("corpus:zero-sign", quad{P(1, -L, 0), P(1, L, 0), P(1, 0, -L), P(1, L/2, L)})
+	}
+	emit("corpus:collinear-0,0.2/0.1,0.3", quad{s2.Point{Vector: circ(0)}, s2.Point{Vector: circ(0.2)}, s2.Point{Vector: circ(0.1)}, s2.Point{Vector: circ(0.3)}})
+	emit("corpus:collinear-tiny", quad{P(hx("-0x1.a247fd5a21685p-752"), 0, 1), P(hx("-0x1.eaaac319bda5bp-750"), 0, 1), P(hx("0x1.041b86a6aeeep-749"), 0, 1), P(hx("-0x1.3208700fb21bp-751"), 0, 1)})
+	emit("corpus:collinear-tiny", quad{P(-1, hx("-0x1.5857873480b53p-974"), 0), P(-1, hx("0x1.40638f5ca5d59p-971"), 0), P(-1, hx("0x1.a7ef04494eb83p-977"), 0), P(-1, hx("-0x1.0756600653c4cp-972"), 0)})
+	emit("corpus:antipode(known)", quad{
+		P(hx("0x1.95909c3e8f0fep-01"), hx("-0x1.f2a763749576p-02"), hx("-0x1.78d0655c03954p-02")),
+		P(hx("-0x1.95909c3e9063dp-01"), hx("0x1.f2a76374960d6p-02"), hx("0x1.78d0655bfd158p-02")),
+		P(hx("0x1.95909c3e859d8p-01"), hx("-0x1.f2a76374bc30ep-02"), hx("-0x1.78d0655bf9001p-02")),
+		P(hx("-0x1.95909c3e85a31p-01"), hx("0x1.f2a76374bc336p-02"), hx("0x1.78d0655bf8e4cp-02"))})
+
 	thetas := []float64{math.Pi / 2, 1, 0.1, 1e-2, 1e-3, 1e-4, 1e-5, 1e-6, 1e-7, 1e-8, 1e-9, 1e-10, 1e-11, 1e-12, 1e-13, 1e-14, 3e-15, 1e-15}
 	n := 5 * budget
 	for _, th := range thetas {
